@@ -1,3 +1,4 @@
+import OpacusLean.Generated.ReleaseArith
 import OpacusLean.Lemmas.PeekQueue
 import OpacusLean.Model.Noise
 import OpacusLean.Props.C05
@@ -114,5 +115,27 @@ theorem hook_noise_on_logical_batch_ends (ops : List Opacus.PeekQueue.Op) (h : O
 /-- non-vacuity: two logical batches of 2 + 1 physical batches, the sampler two batches ahead -/
 example : Opacus.PeekQueue.ahead 0 [.push true, .push false, .batch, .push false, .batch, .batch] = true ∧
     (Opacus.PeekQueue.run [.push true, .push false, .batch, .push false, .batch, .batch]).noised = [false, true, true] := by decide
+
+/-! ## The tie to the source: the std every gradient-noise request is made with (`Generated/ReleaseArith.lean`) -/
+
+set_option linter.unusedTactic false in
+set_option linter.unreachableTactic false in
+/-- the `std=` argument of `_generate_noise` as written in `DPOptimizer.add_noise` and in the distributed per-layer
+optimizer's `_add_noise_parameter` (with the optimizer's own generator passed on – checked by the translator) is `σ·C`,
+the std of every request of the model's `addNoiseReqs`; those two calls are the only gradient-noise sites under
+`opacus/optimizers/` -/
+theorem generated_noise_std_eq_model (σ C : ℝ) :
+    Opacus.Generated.Release.flatStd σ C = σ * C ∧
+    Opacus.Generated.Release.ddpPerLayerStd σ C = σ * C ∧
+    Opacus.Generated.Release.gradNoiseSites = 2 ∧
+    (∀ (shapes : List (List Nat)) (secure : Bool),
+      ∀ r ∈ addNoiseReqs (fun x : ℝ => decide (x = 0)) σ C shapes secure, r.std = Opacus.Generated.Release.flatStd σ C) := by
+  have h1 : Opacus.Generated.Release.flatStd σ C = σ * C := by
+    unfold Opacus.Generated.Release.flatStd; first | rfl | (ring_nf; done) | (norm_num; ring_nf)
+  have h2 : Opacus.Generated.Release.ddpPerLayerStd σ C = σ * C := by
+    unfold Opacus.Generated.Release.ddpPerLayerStd; first | rfl | (ring_nf; done) | (norm_num; ring_nf)
+  refine ⟨h1, h2, by decide, ?_⟩
+  intro shapes secure r hr
+  rw [h1]; exact addNoise_all_std σ C shapes secure r hr
 
 end Opacus.C04
